@@ -9,6 +9,7 @@ import (
 	"go/parser"
 	"go/token"
 	"io/fs"
+	"os"
 	"path/filepath"
 	"reflect"
 	"sort"
@@ -63,3 +64,5 @@ func buildOK(f *ast.File, fset *token.FileSet) bool {
 func parseFileOnly(src string) (*ast.File, error) {
 	return parser.ParseFile(token.NewFileSet(), "", src, 0)
 }
+
+func readFile(p string) ([]byte, error) { return os.ReadFile(p) }
